@@ -5,6 +5,7 @@ driver ops for C08 (numbers are float64 bit patterns):
 
 * `c08.qel λ ix iy iz fx fy fz`            → `Qx Qy Qz` (float64 wavelength)
 * `c08.qel32 λ ix iy iz fx fy fz`          → `Qx Qy Qz` narrowed to float32 (float32 wavelength), printed widened
+* `c08.qdtype <f64|f32|i64|i32>`            → dtype of Qx, Qy, Qz for that wavelength dtype
 * `c08.ub <9 u> <9 b>`                      → 9 entries of `U·B` (row major)
 * `c08.hkl qx qy qz <9 ub> <9 r>`           → `h k l`
 * `c08.qvec <sizes x> <data x> <sizes y> <data y> <sizes z> <data z>`
@@ -58,6 +59,11 @@ def handle : List String → Option String
         let q : V3 Float32 := qElementsCast Float.toFloat32 l ⟨ix, iy, iz⟩ ⟨fx, fy, fz⟩
         some (" ".intercalate ([q.x, q.y, q.z].map (fun x => f64Hex x.toFloat)))
       | _ => none
+  | ["c08.qdtype", d] =>
+      let dt? : Option Inelastic.DType := match d with
+        | "f64" => some .f64 | "f32" => some .f32 | "i64" => some .i64 | "i32" => some .i32 | _ => none
+      dt?.map (fun dt => match qResultDType dt with
+        | .f64 => "f64" | .f32 => "f32" | .i64 => "i64" | .i32 => "i32")
   | "c08.ub" :: rest => do
       let fs ← floats? rest
       let u ← m3? (fs.take 9); let b ← m3? (fs.drop 9)
